@@ -36,10 +36,20 @@ def embedded_2x2_product(rng, n, k):
 def unitary_class(rng, n):
     """(class name, matrix, valid?) valid: True / False (must raise) ."""
     classes = ["haar", "haar", "haar", "real_orthogonal", "permutation", "identity", "diag_phases", "block_diag",
-               "exact_zeros", "antiidentity", "near_valid", "perm_phases", "invalid_nonunitary", "invalid_scaled"]
+               "exact_zeros", "antiidentity", "near_valid", "perm_phases", "invalid_nonunitary", "invalid_scaled",
+               "float_orthogonal", "float_signs", "float_signed_permutation"]
     if n == 1:
-        classes = ["haar", "identity", "diag_phases", "invalid_scaled"]
+        classes = ["haar", "identity", "diag_phases", "invalid_scaled", "float_signs"]
     c = str(rng.choice(classes))
+    # real *dtype* inputs (users pass np.eye / orthogonal matrices as float arrays)
+    if c == "float_orthogonal":
+        return c, np.asarray(real_orth(rng, n), dtype=float), True
+    if c == "float_signs":
+        d = rng.choice([-1.0, 1.0], n)
+        d[int(rng.integers(n))] = -1.0
+        return c, np.diag(d), True
+    if c == "float_signed_permutation":
+        return c, np.eye(n)[rng.permutation(n)] * rng.choice([-1.0, 1.0], n), True
     if c == "haar":
         return c, haar(rng, n), True
     if c == "real_orthogonal":
